@@ -200,11 +200,27 @@ def run(chk):
     nprog = chk.n(40, 600)
     cfgs = real.CONFIGS
     nbadp = 0
+    # values that coincide with the codes of the argument protocol (1 and 2 are the separator codes, 0 / -1 the flags) in
+    # every position, with and without a trailing separator: the line break must not depend on the values
+    fixed = []
+    for f0 in ('###', '### ###', '&', '## & ##'):
+        nf = len(fields_of(real_scan(f0)[0]))
+        for code in (1, 2, 0, -1):
+            for tr in ('', ';'):
+                fixed.append((f0, [code] * nf, tr))
+                if nf > 1:
+                    fixed.append((f0, [7] * (nf - 1) + [code], tr))
+    nprog += len(fixed)
     for pi in range(nprog):
-        f = rng.choice(plain + ['a ### b', '& = ###.##', '!##_#', '###.## ###.##', '&&', 'x_&y'])
+        if pi < len(fixed):
+            f, forced, forced_tr = fixed[pi]
+        else:
+            f, forced, forced_tr = rng.choice(plain + ['a ### b', '& = ###.##', '!##_#', '###.## ###.##', '&&', 'x_&y']), None, None
         a, fo = real_scan(f)
         fs = fields_of(a)
         vals = [rng.choice(['s', 'hello']) if x[0] == 'str' else rng.choice(VALUES) for x in fs]
+        if forced is not None:
+            vals = [str(v) if x[0] == 'str' else v for x, v in zip(fs, forced)]
         want = real_format(fo, vals)
         if not want.startswith('ok') or not vals:
             continue        # PRINT USING without values is a C07 matter (host IndexError in _exec_print)
@@ -217,7 +233,7 @@ def run(chk):
             else:
                 lit = values.qb_float_literal(abs(v), 'DOUBLE')
                 items.append(f'(0# - {lit})' if v < 0 else lit)
-        trailing = rng.choice(['', ';'])
+        trailing = rng.choice(['', ';']) if forced_tr is None else forced_tr
         src = f'PRINT USING "{f}"; ' + '; '.join(items) + trailing + '\nPRINT "|"\n'
         o, g = cfgs[pi % 6]
         st = real.try_compile(src, o, g)
